@@ -233,6 +233,22 @@ def removal_span_rule(fb, it):
             i = con[0][0][1][2][1]
             arms[con[0][1]] = (pushes[0][3], i)
             rng = range_var(i)
+    mapped = None
+    if not arms:
+        # the same span spelled as `(lo..hi).map(|i| if L.contains(&i) { default } else { get(i)? }).collect()`
+        for p in paths:
+            for e in p.trace:
+                if e[0] == "call" and e[1].endswith("Iterator::map") and len(e[2]) == 2 and isinstance(e[2][0], tuple) and e[2][0][0] == "adt" and e[2][0][1].endswith("ops::Range"):
+                    cps = closure_paths(fb, e[2][1])
+                    for conds, rv in cps or []:
+                        con = [(a, v) for a, v in conds if a[0] == "b" and a[1][0] == "call" and a[1][1].endswith("::contains")]
+                        if con and isinstance(rv, tuple) and rv[0] == "adt" and rv[2] in ("Ok", "Some"):
+                            L = con[0][0][1][2][0]
+                            arms[con[0][1]] = (rv[4][0], con[0][0][1][2][1])
+                    rng = (e[2][0][4][0], e[2][0][4][1])
+                    mapped = ("call", e[1], e[2])
+            if mapped:
+                break
     if set(arms) != {True, False}:
         return False, "the span values are not chosen by `indices.contains(&i)` (arms found: %s)" % sorted(map(str, arms))
     what = removal_list(fb, L)
@@ -263,7 +279,7 @@ def removal_span_rule(fb, it):
     def built_in_loop(t):
         return isinstance(t, tuple) and t and t[0] == "phi" and isinstance(t[4], tuple) and t[4] and (
             t[4][0] == "vecnew" or (t[4][0] == "call" and re.search(r"Vec::<T>::(new|with_capacity)$", t[4][1])))
-    if not wr or any(c[2][1] != first or not built_in_loop(c[2][2]) for c in wr):
+    if not wr or any(c[2][1] != first or not (built_in_loop(c[2][2]) if mapped is None else c[2][2] in (mapped, ("unwrap", mapped))) for c in wr):
         return False, "the values are written with set_range(%s, %s), specification set_range(L[0], values)" % (sh(wr[0][2][1], 40) if wr else None, sh(wr[0][2][2], 40) if wr else None)
     s = treefx.summarize(fb, it)
     if s["f1"] or [x[0] for x in s["f0"]] != ["elems"] or s["f0"][0][1] != L:
@@ -390,10 +406,54 @@ def check_flag_writers(ctx, fb):
     ctx.floor("flag-writers", len(ws), 11)
 
 
+def check_path_pairing(ctx, fb):
+    """R15-1 per path: the summaries above compare position *sets* over all paths; this clause is about each path on its own: a path
+    of a mutator that can end in success and changes a leaf directly (a store into the node storage, or a call of the storage tree's
+    own set / delete / set_range / update_next) also stores flags on that path (or in a loop it runs) - a shortcut that changes the
+    leaf through another route and returns leaves the empty-position list behind"""
+    n = tot = 0
+    for name in ("pmtree", "optimal", "full"):
+        for m in SIMPLE + ["delete"] + (["remove_indices", "remove_indices_and_set_leaves"] if name == "pmtree" else []):
+            it = get(fb, name, m)
+            if it is None:
+                raise MissingAnchor("%s::%s" % (name, m))
+            ctx.touch(it)
+            eng = Engine(fb, inline=lambda i: False, max_paths=4000)
+            paths = eng.run(it)
+
+            def flag_events(q):
+                return [e for e in q.trace if (e[0] == "write" and e[1][1] == -1 and e[2] and e[2][0] == ("f", treefx.FLAGS)) or
+                        (e[0] == "store_through_value" and treefx.FLAGS in repr(e[1])[:2000])]
+            loops_with_flags = {q.loop for q in paths if q.kind == "backedge" and flag_events(q)}
+            bad = None
+            nsucc = 0
+            for q in paths:
+                if q.kind != "return" or known_ok(eng.value_of(q.store, q.ret)) is False:
+                    continue
+                raw = [e for e in q.trace if (e[0] == "call" and re.search(r"MerkleTree::<D, H>::(set|set_range|update_next|delete)$", e[1])) or
+                       (e[0] == "write" and e[1][1] == -1 and e[2] and e[2][0] == ("f", "nodes")) or
+                       (e[0] == "call" and e[1].endswith("HashMap::<K, V, S, A>::insert") and contains(e[2][0], F(P(1), "nodes")))]
+                if not raw:
+                    continue
+                nsucc += 1
+                flagged = bool(flag_events(q)) or any(e[0] == "loop" and e[2] in loops_with_flags for e in q.trace)
+                if not flagged:
+                    bad = (q, raw[0])
+            n += 1
+            ctx.check(bad is None, "R15-1", "%s::%s every success path pairs leaf and flag" % (name, m),
+                      "every path that can succeed and changes a leaf also stores the empty-position flags",
+                      ("%s::%s has a success path that changes a leaf (%s) without storing any flag: the empty-leaves list no longer matches the leaves" % (
+                          name, m, (bad[1][1][-40:] if bad[1][0] == "call" else "store into nodes"))) if bad else "", loc(it, bad[0].site if bad else None))
+            tot += nsucc
+    ctx.floor("per-path pairing instances", n, 14)
+    ctx.floor("leaf-changing success paths", tot, 7)
+
+
 def run(ctx):
     ctx.prefetch(["default", "fixtures"])
     fb = ctx.fb("default")
     check_mutators(ctx, fb)
+    check_path_pairing(ctx, fb)
     check_batches(ctx, fb)
     check_listing(ctx, fb, "default")
     check_reopen(ctx, fb)
